@@ -10,6 +10,7 @@
  *   N <nfetch> <nswitch> <handlerfetch> <nswreq>       (cc)   fetching threads, switching threads, handlers fetch, requests
  *   N <nmod> <ncheck> <ndecodes> <nops>                (rd)   threads changing services, checking threads, decodes, ops per thread
  *   J <j> ...                 (ccseq) request a channel switch right after the j-th chswcd_mutex section of the decoding thread
+ *   T <dt_us>                 time step of the next frame in microseconds (default 33367; outside 25000..50000 = dropped frames)
  *   P <line> <b1> <b2>        one frame with one caption line (hex bytes)
  *   X <84 hex digits>         one frame with one Teletext line
  *   E                         one frame without data
@@ -24,7 +25,10 @@
  *   cb       event handler entered (type)
  *   fetched  vbi_fetch_cc_page returned: page number, hash of the returned text
  *   call/ret API call of the raw decoder with argument / return value; rawdec: ids vbi_raw_decode returned
+ *   call op=frame dt=<us>: the decoding thread enters vbi_decode; call op=fetch|switch; end: a thread finished
  *   selflock a thread asked for a mutex it owns (the process stops there instead of hanging)
+ * Deadlock watchdog: no API call completed for 3 s while every worker thread sleeps (state S in /proc/self/task, i.e.
+ * blocked on a mutex or pausing - a starved but runnable thread is R and never counts) -> exit 4 with the calls in progress.
  * With ThreadSanitizer the tracer is compiled out (its atomic counter would order everything) and TSan is the monitor.
  */
 #define _GNU_SOURCE
@@ -36,6 +40,8 @@
 #include <sched.h>
 #include <unistd.h>
 #include <time.h>
+#include <sys/syscall.h>
+#include <dirent.h>
 #include "config.h"
 #include "src/misc.h"
 #include "src/vbi.h"
@@ -56,7 +62,7 @@
 
 enum { M_NONE, M_CC, M_CHSW, M_EV, M_RD, M_PI };
 static const char *mname[] = { "", "cc", "chsw", "ev", "rd", "pi" };
-enum { E_LOCK = 1, E_UNLOCK, E_TRY, E_ACC, E_CB, E_FETCHED, E_CALL, E_RET, E_RAWDEC, E_SELFLOCK, E_START };
+enum { E_LOCK = 1, E_UNLOCK, E_TRY, E_ACC, E_CB, E_FETCHED, E_CALL, E_RET, E_RAWDEC, E_SELFLOCK, E_START, E_FRAME, E_END };
 
 struct ev { uint64_t seq; uint8_t e, m, w, own; int n; const char *s, *fn; char *x; };
 struct thr {
@@ -64,6 +70,7 @@ struct thr {
 	struct ev *b; size_t n, cap; volatile size_t pub_n;
 	const char *last_r; int last_w; const char *last_fn;        /* marker already recorded since this thread's last mutex event */
 	int pages_touched; unsigned chsw_sections; unsigned ncb;
+	const char *cur_op; pid_t tid;
 };
 #define MAXT 8
 static struct thr TH[MAXT];
@@ -84,6 +91,9 @@ static const char *logpath;
 static unsigned inject[4096]; static int ninject;
 static int handler_fetch;
 static int yield_pct = 6;
+static unsigned long ops_done;       /* API calls completed by all threads (relaxed counter, for the watchdog) */
+#define OP_BEGIN(name) do { if (T) T->cur_op = (name); } while (0)
+#define OP_END() do { __atomic_add_fetch(&ops_done, 1, __ATOMIC_RELAXED); } while (0)
 
 static uint64_t mix(uint64_t x) { x += 0x9E3779B97F4A7C15ull; x = (x ^ (x >> 30)) * 0xBF58476D1CE4E5B9ull; x = (x ^ (x >> 27)) * 0x94D049BB133111EBull; return x ^ (x >> 31); }
 static unsigned rnd(void) { T->rng = mix(T->rng); return (unsigned)(T->rng >> 33); }
@@ -232,7 +242,7 @@ static int cmp_ev(const void *a, const void *b) { uint64_t x = ((const struct ev
 static pthread_mutex_t dump_mx = PTHREAD_MUTEX_INITIALIZER;
 static void dump_log(void)
 {
-	static const char *en[] = { "", "lock", "unlock", "trylock", "acc", "cb", "fetched", "call", "ret", "rawdec", "selflock", "start" };
+	static const char *en[] = { "", "lock", "unlock", "trylock", "acc", "cb", "fetched", "call", "ret", "rawdec", "selflock", "start", "call", "end" };
 	size_t tot = 0, k = 0, i, a; int t; struct ev *all; size_t cnt[MAXT];
 	FILE *f = fopen(logpath, "w");
 	if (!f) { perror(logpath); return; }
@@ -259,6 +269,7 @@ static void dump_log(void)
 		case E_RET: fprintf(f, ",\"op\":\"%s\",\"val\":%s", v->s, v->x ? v->x : "[]"); break;
 		case E_RAWDEC: fprintf(f, ",\"n\":%d,\"ids\":%s", v->n, v->x); break;
 		case E_START: fprintf(f, ",\"%s\":%s", v->s, v->x); break;
+		case E_FRAME: fprintf(f, ",\"op\":\"frame\",\"dt\":%d", v->n); break;
 		}
 		fprintf(f, "}\n");
 	}
@@ -270,7 +281,7 @@ static void dump_and_exit(int rc)
 	__atomic_store_n(&recording, 0, __ATOMIC_RELAXED);
 	usleep(20000);                    /* let the other threads finish the event they are writing */
 	dump_log();
-	printf("{\"exit\":%d,\"frames\":%u}\n", rc, frames_done);
+	printf("{\"exit\":%d,\"frames\":%u}\n", rc, __atomic_load_n(&frames_done, __ATOMIC_RELAXED));
 	fflush(stdout);
 	_exit(rc);
 }
@@ -290,14 +301,21 @@ static void on_death(void)
 #endif
 
 /* ------------------------------------------------------------------ service decoder */
-struct frame { vbi_sliced s; int n; };
+struct frame { vbi_sliced s; int n; int dt_us; };
 static struct frame *frames; static unsigned nframes;
 static int nfetch, nswitch, nswreq;
 
 static void fetch_and_log(int pgno)
 {
 	static __thread vbi_page pg;
-	if (vbi_fetch_cc_page(vbi, &pg, pgno, TRUE)) {
+	int ok;
+	const char *outer = T ? T->cur_op : NULL;
+	TRACE({ struct ev *v = add_ev(E_CALL); v->s = "fetch"; commit_ev(); });
+	OP_BEGIN("vbi_fetch_cc_page");
+	ok = vbi_fetch_cc_page(vbi, &pg, pgno, TRUE);
+	OP_END();
+	if (T) T->cur_op = outer;
+	if (ok) {
 		TRACE({ struct ev *v = add_ev(E_FETCHED); v->n = pgno; v->x = malloc(20);
 			sprintf(v->x, "%016llx", (unsigned long long) page_hash(&pg)); commit_ev(); });
 	}
@@ -315,31 +333,50 @@ static void handler(vbi_event *e, void *ud)
 		fetch_and_log(e->type == VBI_EVENT_CAPTION ? e->ev.caption.pgno : 1 + (int)(mix(k) % 8));
 }
 
+/* all threads start their streams together (relaxed counter: no ordering that a race detector could take for synchronisation) */
+static int started, expected_threads;
+static void thread_begin(struct thr *t)
+{
+	T = t; T->tid = (pid_t) syscall(SYS_gettid);
+	__atomic_add_fetch(&started, 1, __ATOMIC_RELAXED);
+	while (__atomic_load_n(&started, __ATOMIC_RELAXED) < expected_threads) sched_yield();
+}
+static void thread_end(void) { TRACE({ add_ev(E_END); commit_ev(); }); if (T) T->cur_op = NULL; }
+
 static void *dec_thread(void *arg)
 {
-	unsigned i; double t = 1000.0;
-	T = arg;
+	unsigned i; double tmax = 1000.0;
+	thread_begin(arg);
 	for (i = 0; i < nframes; ++i) {
 		vbi_sliced s = frames[i].s;      /* vbi_decode_caption modifies the buffer */
+		int dt = i ? frames[i].dt_us : 33367;
+		double t = tmax + dt * 1e-6;     /* the decoder keeps the latest time seen: steps are relative to it */
+		TRACE({ struct ev *v = add_ev(E_FRAME); v->n = dt; commit_ev(); });
+		OP_BEGIN("vbi_decode");
 		vbi_decode(vbi, &s, frames[i].n, t);
-		t += 1 / 29.97;
+		OP_END();
+		if (t > tmax) tmax = t;
 		__atomic_store_n(&frames_done, i + 1, __ATOMIC_RELAXED);
 		maybe_yield();
 	}
+	thread_end();
 	__atomic_store_n(&dec_finished, 1, __ATOMIC_RELAXED);
 	return NULL;
 }
 
+/* pause until the decoding thread moved on (short sleeps: a waiting thread is asleep, not spinning) */
 static void wait_progress(unsigned last)
 {
-	while (!__atomic_load_n(&dec_finished, __ATOMIC_RELAXED) && __atomic_load_n(&frames_done, __ATOMIC_RELAXED) == last)
-		sched_yield();
+	int k = 0;
+	while (!__atomic_load_n(&dec_finished, __ATOMIC_RELAXED) && __atomic_load_n(&frames_done, __ATOMIC_RELAXED) == last) {
+		if (++k < 20) sched_yield(); else usleep(1000);
+	}
 }
 
 static void *fetch_thread(void *arg)
 {
 	unsigned n = 0, maxn = 2 * nframes + 16;
-	T = arg;
+	thread_begin(arg);
 	while (!__atomic_load_n(&dec_finished, __ATOMIC_RELAXED) && n < maxn) {
 		unsigned r = rnd();
 		fetch_and_log((r & 3) ? 1 + (r >> 2) % 4 : 5 + (r >> 2) % 4);
@@ -347,21 +384,32 @@ static void *fetch_thread(void *arg)
 		if (rnd() & 1) wait_progress(__atomic_load_n(&frames_done, __ATOMIC_RELAXED));
 		else maybe_yield();
 	}
+	thread_end();
 	return NULL;
+}
+
+static void request_switch(void)
+{
+	TRACE({ struct ev *v = add_ev(E_CALL); v->s = "switch"; commit_ev(); });
+	OP_BEGIN("vbi_channel_switched");
+	vbi_channel_switched(vbi, 0);
+	OP_END();
 }
 
 static void *switch_thread(void *arg)
 {
 	int k;
-	T = arg;
+	thread_begin(arg);
 	for (k = 0; k < nswreq; ++k) {
-		unsigned target = (unsigned)((uint64_t) nframes * (k + 1) / (nswreq + 1)) + rnd() % 5;
-		while (!__atomic_load_n(&dec_finished, __ATOMIC_RELAXED) && __atomic_load_n(&frames_done, __ATOMIC_RELAXED) < target)
-			sched_yield();
+		unsigned target = (unsigned)((uint64_t) nframes * (k + 1) / (nswreq + 1)) + rnd() % 5, w = 0;
+		while (!__atomic_load_n(&dec_finished, __ATOMIC_RELAXED) && __atomic_load_n(&frames_done, __ATOMIC_RELAXED) < target) {
+			if (++w < 20) sched_yield(); else usleep(1000);
+		}
 		if (__atomic_load_n(&dec_finished, __ATOMIC_RELAXED)) break;
-		vbi_channel_switched(vbi, 0);
-		if (rnd() % 4 == 0) vbi_channel_switched(vbi, 0);     /* a second request before the first one was served */
+		request_switch();
+		if (rnd() % 4 == 0) request_switch();     /* a second request before the first one was served */
 	}
+	thread_end();
 	return NULL;
 }
 
@@ -385,6 +433,7 @@ static void run_cc(void)
 	{ int j; for (j = 0; j < ninject; ++j) if (inject[j] == 0) { injecting = 1; vbi_channel_switched(vbi, 0); injecting = 0; } }
 #endif
 	T = NULL;
+	expected_threads = n;
 	pthread_create(&th[0], NULL, dec_thread, ts[0]);
 	for (i = 1; i < n; ++i)
 		pthread_create(&th[i], NULL, ts[i]->name[0] == 'f' ? fetch_thread : switch_thread, ts[i]);
@@ -403,19 +452,47 @@ static void log_set(int e, const char *op, unsigned set)
 	(void) e; (void) op; (void) set;
 }
 
+static int geom_start[2]; static unsigned geom_count[2];
+
+/* geometry changes are made by the thread that decodes (between two decodes); the others add / remove / check meanwhile */
+static void do_resize(const char *op, int full)
+{
+	int st[2]; unsigned ct[2];
+	st[0] = geom_start[0]; st[1] = geom_start[1];
+	ct[0] = full ? geom_count[0] : 0; ct[1] = full ? geom_count[1] : 0;
+	log_set(E_CALL, op, 0);
+	OP_BEGIN("vbi_raw_decoder_resize");
+	vbi_raw_decoder_resize(&rd, st, ct);
+	OP_END();
+	log_set(E_RET, op, 0);
+}
+
 static void *rawdec_thread(void *arg)
 {
-	int i, j;
-	T = arg;
+	int i, j, zero = 0;
+	thread_begin(arg);
 	for (i = 0; i < ndecodes; ++i) {
-		int n; unsigned ids = 0;
+		int n; unsigned ids = 0, r = rnd() % 64;
+		if (zero && r < 24) { do_resize("resize_full", 1); zero = 0; }
+		else if (r == 0 && !zero) { do_resize("resize_zero", 0); zero = 1; }
+		else if (r <= 3) do_resize("resize_same", !zero);
+		else if (r == 4) {
+			log_set(E_CALL, "reset", 0);
+			OP_BEGIN("vbi_raw_decoder_reset");
+			vbi_raw_decoder_reset(&rd);
+			OP_END();
+			log_set(E_RET, "reset", 0);
+		}
 		log_set(E_CALL, "decode", 0);
+		OP_BEGIN("vbi_raw_decode");
 		n = vbi_raw_decode(&rd, raw, sliced_out);
+		OP_END();
 		for (j = 0; j < n; ++j) ids |= sliced_out[j].id;
 		TRACE({ struct ev *v = add_ev(E_RAWDEC); v->n = n; v->x = set_json(ids); commit_ev(); });
 		__atomic_store_n(&frames_done, i + 1, __ATOMIC_RELAXED);
 		if (rnd() & 1) sched_yield();        /* glibc mutexes are not fair: let the other threads in */
 	}
+	thread_end();
 	__atomic_store_n(&dec_finished, 1, __ATOMIC_RELAXED);
 	return NULL;
 }
@@ -431,25 +508,33 @@ static unsigned rnd_set(void)
 static void *mod_thread(void *arg)
 {
 	int k;
-	T = arg;
+	thread_begin(arg);
 	for (k = 0; k < nops && !__atomic_load_n(&dec_finished, __ATOMIC_RELAXED); ++k) {
 		unsigned set = rnd_set(), r;
-		if (rnd() & 1) { log_set(E_CALL, "add", set); r = vbi_raw_decoder_add_services(&rd, set, 0); log_set(E_RET, "add", r); }
-		else { log_set(E_CALL, "remove", set); r = vbi_raw_decoder_remove_services(&rd, set); log_set(E_RET, "remove", r); }
+		if (rnd() & 1) {
+			log_set(E_CALL, "add", set); OP_BEGIN("vbi_raw_decoder_add_services");
+			r = vbi_raw_decoder_add_services(&rd, set, 0); OP_END(); log_set(E_RET, "add", r);
+		} else {
+			log_set(E_CALL, "remove", set); OP_BEGIN("vbi_raw_decoder_remove_services");
+			r = vbi_raw_decoder_remove_services(&rd, set); OP_END(); log_set(E_RET, "remove", r);
+		}
 		if (rnd() & 1) wait_progress(__atomic_load_n(&frames_done, __ATOMIC_RELAXED)); else maybe_yield();
 	}
+	thread_end();
 	return NULL;
 }
 
 static void *check_thread(void *arg)
 {
 	int k;
-	T = arg;
+	thread_begin(arg);
 	for (k = 0; k < nops && !__atomic_load_n(&dec_finished, __ATOMIC_RELAXED); ++k) {
-		unsigned set = rnd_set(), r;
-		log_set(E_CALL, "check", set); r = vbi_raw_decoder_check_services(&rd, set, 0); log_set(E_RET, "check", r);
+		unsigned set = (rnd() % 8) ? rnd_set() : 0, r;      /* also the empty set */
+		log_set(E_CALL, "check", set); OP_BEGIN("vbi_raw_decoder_check_services");
+		r = vbi_raw_decoder_check_services(&rd, set, 0); OP_END(); log_set(E_RET, "check", r);
 		if (rnd() & 1) wait_progress(__atomic_load_n(&frames_done, __ATOMIC_RELAXED)); else maybe_yield();
 	}
+	thread_end();
 	return NULL;
 }
 
@@ -464,6 +549,7 @@ static void run_rd(void)
 	have_rd = 1;
 	vbi_raw_decoder_parameters(&rd, all, 625, &max_rate);
 	scan_lines = rd.count[0] + rd.count[1];
+	geom_start[0] = rd.start[0]; geom_start[1] = rd.start[1]; geom_count[0] = rd.count[0]; geom_count[1] = rd.count[1];
 	size = (size_t) scan_lines * rd.bytes_per_line;
 	raw = malloc(size);
 	sliced_out = calloc(scan_lines + 1, sizeof *sliced_out);
@@ -481,6 +567,7 @@ static void run_rd(void)
 	T = ts[0]; __atomic_store_n(&recording, !NO_TRACE, __ATOMIC_RELAXED);
 	TRACE({ struct ev *v = add_ev(E_START); v->s = "svc"; v->x = set_json(vbi3_raw_decoder_services((vbi3_raw_decoder *) rd.pattern)); commit_ev(); });
 	T = NULL;
+	expected_threads = n;
 	pthread_create(&th[0], NULL, rawdec_thread, ts[0]);
 	for (i = 1; i < n; ++i) pthread_create(&th[i], NULL, ts[i]->name[0] == 'm' ? mod_thread : check_thread, ts[i]);
 	for (i = 0; i < n; ++i) pthread_join(th[i], NULL);
@@ -490,17 +577,43 @@ static void run_rd(void)
 	free(raw); free(sliced_out);
 }
 
-/* ------------------------------------------------------------------ watchdog: no progress -> report instead of hanging */
+/* ------------------------------------------------------------------ watchdog: a deadlock is reported instead of hanging */
+static int thread_state(pid_t tid)
+{
+	char path[64], buf[256], *p; FILE *f; int st = '?';
+	snprintf(path, sizeof path, "/proc/self/task/%d/stat", (int) tid);
+	f = fopen(path, "r");
+	if (!f) return '?';
+	if (fgets(buf, sizeof buf, f) && (p = strrchr(buf, ')')) && p[1] == ' ') st = p[2];
+	fclose(f);
+	return st;
+}
+
 static void *watchdog(void *arg)
 {
-	uint64_t last = 0; int idle = 0;
+	unsigned long last = 0; int idle = 0;
 	(void) arg;
 	for (;;) {
-		uint64_t now;
-		usleep(250000);
-		now = __atomic_load_n(&gseq, __ATOMIC_RELAXED) + __atomic_load_n(&frames_done, __ATOMIC_RELAXED);
-		if (now == last) { if (++idle >= 40) { fprintf(stderr, "WATCHDOG: no progress for 10 s\n"); dump_and_exit(4); } }
-		else { idle = 0; last = now; }
+		unsigned long now; int t, all_asleep = 1, workers = 0;
+		usleep(100000);
+		now = __atomic_load_n(&ops_done, __ATOMIC_RELAXED);
+		for (t = 0; t < nthr; ++t) {
+			if (!TH[t].tid || !TH[t].cur_op) continue;      /* not started / finished */
+			workers++;
+			if (thread_state(TH[t].tid) != 'S') all_asleep = 0;
+		}
+		/* no call completed, and nobody is runnable: a thread that is merely starved on a busy machine is R */
+		if (now == last && workers && all_asleep) idle++; else idle = 0;
+		last = now;
+		if (idle >= 30) {
+			char msg[1024]; size_t n;
+			n = snprintf(msg, sizeof msg, "\nWATCHDOG: deadlock, no API call completed for 3 s and every thread is blocked; calls in progress:");
+			for (t = 0; t < nthr; ++t) if (TH[t].tid && TH[t].cur_op && n < sizeof msg - 80)
+				n += snprintf(msg + n, sizeof msg - n, " %s=%s", TH[t].name, TH[t].cur_op);
+			snprintf(msg + n, sizeof msg - n, " .\n");
+			fputs(msg, stderr);          /* one write: sanitizer reports of other threads must not split the line */
+			dump_and_exit(4);
+		}
 	}
 	return NULL;
 }
@@ -509,7 +622,7 @@ int main(int argc, char **argv)
 {
 	char line[512], mode[16] = "cc";
 	FILE *f; pthread_t wd;
-	size_t cap = 0;
+	size_t cap = 0; int next_dt = 33367;
 	if (argc < 3) { fprintf(stderr, "usage: drv_locks <script> <log>\n"); return 2; }
 	logpath = argv[2];
 	f = fopen(argv[1], "r");
@@ -526,11 +639,14 @@ int main(int argc, char **argv)
 		} else if (line[0] == 'J') {
 			char *p = line + 1; unsigned j; int used;
 			while (sscanf(p, "%u%n", &j, &used) == 1 && ninject < 4096) { inject[ninject++] = j; p += used; }
+		} else if (line[0] == 'T') {
+			sscanf(line + 1, "%d", &next_dt);
 		} else if (line[0] == 'P' || line[0] == 'X' || line[0] == 'E') {
 			struct frame *fr;
 			if (nframes == cap) { cap = cap ? 2 * cap : 1024; frames = realloc(frames, cap * sizeof *frames); }
 			fr = &frames[nframes++];
 			memset(fr, 0, sizeof *fr);
+			fr->dt_us = next_dt; next_dt = 33367;
 			if (line[0] == 'P') {
 				unsigned l, a, b;
 				sscanf(line + 1, "%u %x %x", &l, &a, &b);
